@@ -148,7 +148,7 @@ impl Check for C20 {
     }
     fn runs(&self, tier: Tier) -> u64 {
         match tier {
-            Tier::Quick => 150_000,
+            Tier::Quick => 400_000,
             Tier::Thorough => 20_000_000,
         }
     }
